@@ -24,7 +24,7 @@ func ruleC16(prog *Program, rep *Report) {
 	rulePreRegister(prog, rep) // a type registered lazily makes the result depend on what was recomposed before
 	ruleParseFloatBits(prog, rep, "alt", "oj", "sen", "gen")
 	ruleDispatchArgs(prog, rep, "alt")
-	ruleTightAppendTwins(prog, rep, "oj") // Marshal writes the compact form: it must treat reflected kinds as the indented form does
+	ruleTightAppendTwins(prog, rep, "oj")                    // Marshal writes the compact form: it must treat reflected kinds as the indented form does
 	copySwitchArms(prog, rep, "alt", "Recomposer.recompAny") // a recomposed value shares no container with the decomposition it was made from
 }
 
